@@ -589,19 +589,22 @@ func askSolvers(text, file string, timeoutS int) string {
 	return ans
 }
 
-// judge: "refuted" when the clause is definitely false on the concrete input and real output, "pre-not-established"
-// when the input is not known to satisfy the precondition, "inconclusive" otherwise
-func (e *Engine) judge(fn *ssa.Function, con *Contract, clause *Clause, in []cval, out []cval, work string, n int) (string, error) {
+// judgeQueries: the three queries that judge one real run by the failed clause. Built sequentially (the symbolic
+// executor shares engine state and is not safe for concurrent use); only the solving runs in parallel.
+type judgeQ struct {
+	pre, sanity, clause string // SMT texts ("" = no precondition to establish)
+	err                 error
+}
+
+func (e *Engine) judgeQueries(fn *ssa.Function, con *Contract, clause *Clause, in []cval, out []cval) judgeQ {
 	fx, pre, err := e.replayCtx(fn, con, in)
 	if err != nil {
-		return "", err
+		return judgeQ{err: err}
 	}
-	base := filepath.Join(work, fmt.Sprintf("case%d", n))
+	var q judgeQ
 	if pre != tTrue {
 		// the precondition has to hold for this input: its negation must be unsatisfiable
-		if a := askSolvers(fx.c.render(fx.c.mark(), pre, "", false, nil), base+"-pre.smt2", 10); a != "unsat" {
-			return "pre-not-established", nil
-		}
+		q.pre = fx.c.render(fx.c.mark(), pre, "", false, nil)
 		fx.c.assert(pre)
 	}
 	if con.Flags["pure"] == "" {
@@ -613,21 +616,38 @@ func (e *Engine) judge(fn *ssa.Function, con *Contract, clause *Clause, in []cva
 		rv := fx.freshVal(resT.At(k).Type(), fmt.Sprintf("out%d", k))
 		fx.c.assert(fx.wellTyped(rv, &fx.cur))
 		if err := fx.bind(&fx.cur, rv, resT.At(k).Type(), out[k]); err != nil {
-			return "", err
+			return judgeQ{err: err}
 		}
 		results = append(results, rv)
 	}
 	// sanity: the concrete facts alone must not be contradictory (that would make every clause "refuted")
-	if a := askSolvers(fx.c.render(fx.c.mark(), tFalse, "", false, nil), base+"-sanity.smt2", 10); a == "unsat" {
-		return "", fmt.Errorf("the concrete input/output facts are contradictory with the background theory (replay driver problem)")
-	}
+	q.sanity = fx.c.render(fx.c.mark(), tFalse, "", false, nil)
 	env := fx.specEnv(&fx.cur, &fx.entry, results)
 	t, err := env.evalBool(clause.Text)
 	if err != nil {
-		return "", err
+		return judgeQ{err: err}
 	}
 	fx.c.assert(t)
-	if a := askSolvers(fx.c.render(fx.c.mark(), tFalse, "", false, nil), base+"-clause.smt2", 10); a == "unsat" {
+	q.clause = fx.c.render(fx.c.mark(), tFalse, "", false, nil)
+	return q
+}
+
+// judge: "refuted" when the clause is definitely false on the concrete input and real output, "pre-not-established"
+// when the input is not known to satisfy the precondition, "inconclusive" otherwise
+func judge(q judgeQ, work string, n int) (string, error) {
+	if q.err != nil {
+		return "", q.err
+	}
+	base := filepath.Join(work, fmt.Sprintf("case%d", n))
+	if q.pre != "" {
+		if a := askSolvers(q.pre, base+"-pre.smt2", 10); a != "unsat" {
+			return "pre-not-established", nil
+		}
+	}
+	if a := askSolvers(q.sanity, base+"-sanity.smt2", 10); a == "unsat" {
+		return "", fmt.Errorf("the concrete input/output facts are contradictory with the background theory (replay driver problem)")
+	}
+	if a := askSolvers(q.clause, base+"-clause.smt2", 10); a == "unsat" {
 		return "refuted", nil
 	}
 	return "inconclusive", nil
@@ -891,6 +911,12 @@ func replayValues(e *Engine, prop string, v *Verdict) map[string]any {
 	errs := make([]error, len(inputs))
 	sem := make(chan struct{}, 12)
 	done := make(chan int, len(inputs))
+	qs := make([]judgeQ, len(inputs))
+	for i := range inputs {
+		if outs[i].Panic == "" {
+			qs[i] = e.judgeQueries(fn, con, clause, inputs[i], outs[i].Results)
+		}
+	}
 	for i := range inputs {
 		i := i
 		sem <- struct{}{}
@@ -900,7 +926,7 @@ func replayValues(e *Engine, prop string, v *Verdict) map[string]any {
 				res[i] = "panic"
 				return
 			}
-			res[i], errs[i] = e.judge(fn, con, clause, inputs[i], outs[i].Results, work, i)
+			res[i], errs[i] = judge(qs[i], work, i)
 		}()
 	}
 	for range inputs {
